@@ -249,6 +249,10 @@ def random_spec(r, regime="calibrated", features=None):
       jshape  "chain" | "fan" | "diamond": force that shape on the first junctions (needs junctions >= 2 / 1 / 4)
       progs   True: a ProgramSet whose outcomes overwrite 1-2 junction proportions from some index on (spec["programs"])
       max_rows  clamp durations so that timed compartments have at most this many rows
+    duration-group specific (C05): group_size, duration, dur_function, group_junction (probability of a junction inside each group),
+      gj_rich   probability that such a junction is drawn from the rich family (1-2 chained junctions, several timed inflows, 1-3 outflows
+                with proportions summing to < 1 / = 1 / > 1 / varying in time, residual outflow)
+      stay_in_group  probability that an ordinary transition out of a timed compartment stays inside its duration group (default 0.5)
     """
     f = dict(features or {})
     n_norm = f.get("n_norm", r.randint(2, 5))
@@ -342,8 +346,8 @@ def random_spec(r, regime="calibrated", features=None):
         p = newpar(fmt)
         srcs = r.sample(stocks, r.choice([1, 1, 1, 2]) if len(stocks) > 1 else 1)
         for s in srcs:
-            if timed_comps.get(s) and r.random() < 0.5:
-                # stay in group when possible (TimedLink)
+            if timed_comps.get(s) and r.random() < f.get("stay_in_group", 0.5):
+                # stay in group when possible (TimedLink); C05 groups: `stay_in_group` = 1 makes duration groups closed
                 same = [x for x in timed_comps if timed_comps[x] == timed_comps[s] and x != s]
                 cand = same or [x for x in stocks + sinks if x != s and timed_comps.get(x) != timed_comps.get(s)]
             else:
@@ -460,6 +464,50 @@ def random_spec(r, regime="calibrated", features=None):
     if f.get("group_junction"):
         for g, members in enumerate(groups):
             if r.random() < f.get("group_junction"):
+                if f.get("gj_rich") and r.random() < f["gj_rich"]:
+                    # C05 (groups with junctions inside): 1-2 junctions chained inside the group, several timed inflows into one
+                    # junction, 1-3 outflows whose stated proportions sum to < 1, = 1, > 1 (normalised by the junction), residual outflow
+                    jn = [f"g{g}"] + ([f"h{g}"] if r.random() < 0.35 else [])
+                    for i, jname in enumerate(jn):
+                        comps.append({"name": jname, "kind": "junction", "databook": False, "init": None})
+                        if i == 0 or r.random() < 0.4:
+                            srcs = r.sample(members, r.choice([1, min(2, len(members)), len(members)]))
+                            shared = r.random() < 0.3
+                            p = None
+                            for s_ in srcs:
+                                if p is None or not shared:
+                                    p = newpar(r.choice(["rate", "probability"]))
+                                trans.append([s_, jname, p["name"]])
+                        dests = r.sample(members, min(r.choice([1, 2, 2, 3]), len(members)))
+                        if i + 1 < len(jn):
+                            dests.insert(r.randrange(len(dests) + 1), jn[i + 1])  # chain inside the group
+                        residual = len(dests) >= 2 and r.random() < 0.4
+                        nd = len(dests) - (1 if residual else 0)
+                        mode = r.choice(["eq1", "lt1", "gt1", "eq1", "lt1", "gt1", "zero_some", "tv"])
+                        shares = [r.random() + 0.05 for _ in range(nd)]
+                        tot_ = sum(shares)
+                        k_par = 0
+                        for k, d in enumerate(dests):
+                            if residual and k == len(dests) - 1:
+                                trans.append([jname, d, ">"])
+                                continue
+                            share = r.choice([1.0 / nd, shares[k_par] / tot_])
+                            if mode == "lt1":
+                                share *= r.choice([0.6, 0.25])
+                            elif mode == "gt1":
+                                share *= r.choice([1.7, 4.0])
+                            elif mode == "zero_some" and k_par == 0 and nd > 1:
+                                share = 0.0
+                            p = newpar("proportion")
+                            if mode == "tv":
+                                # the sum of the stated proportions moves through < 1, = 1, > 1 during the run
+                                tsv = [start, start + 2 * dt, start + 5 * dt, start + 9 * dt]
+                                p["value"] = {pop: {"t": tsv, "v": [share * x_ for x_ in r.sample([0.5, 1.0, 1.0, 2.0, 0.25], 4)], "assumption": None} for pop in pops}
+                            else:
+                                p["value"] = {pop: share for pop in pops}
+                            k_par += 1
+                            trans.append([jname, d, p["name"]])
+                    continue
                 jname = f"g{g}"
                 comps.append({"name": jname, "kind": "junction", "databook": False, "init": None})
                 for s_ in r.sample(members, r.choice([1, len(members)])):
